@@ -896,6 +896,23 @@ def c05(case, impl):
         g = [c for c in got.get(n, []) if c != "ecb_str"]
         if w != g:
             return f"source line {n} calls {w} (innermost first, left to right) but the output calls {g}"
+    # (3) "exactly once per execution of the enclosing statement": a call hoisted out of a conditional statement stays
+    # under that condition, so every IF of a source line that holds convertible functions has its own IF / EXITIF
+    cur, ifs = None, {}
+    for line in lines:
+        lab, rest = T.line_label(line)
+        if lab is not None and lab in want:
+            cur = lab
+        if cur is not None:
+            ifs[cur] = ifs.get(cur, 0) + sum(1 for kk, t in T.code_tokens(rest) if kk == "id" and t.upper() in ("IF", "EXITIF"))
+    for raw in re.split(r"[\r\n]+", case["text"]):
+        m = re.match(r"\s*(\d+)(.*)$", raw)
+        if not m or int(m.group(1)) not in want or not want[int(m.group(1))]:
+            continue
+        n_src = len(re.findall(r"(?<![A-Z])IF(?![A-Z$])", src_blank(m.group(2))))
+        if n_src >= 2 and ifs.get(int(m.group(1)), 0) < n_src - (1 if re.search(r"EXITIF TRUE", "\n".join(lines)) else 0):
+            return (f"source line {m.group(1)} has {n_src} IF statements and convertible functions, the output has "
+                    f"{ifs.get(int(m.group(1)), 0)} conditionals: a hoisted call no longer runs under its own condition")
     return None
 
 
@@ -955,4 +972,21 @@ def c04(case, impl):
         want = f"play.octo := {1 if fast else 0}"
         if not any(want in l for l in lines):
             return f"POKE {addr} is not translated into `{want}`"
+    # … and only those two: a POKE to any other literal address reaches the runtime POKE with both operands
+    others = [m.group(1) for m in re.finditer(r"POKE *(\d+(?:\.\d*)?|&H *[0-9A-F]+) *,", src)
+              if _poke_addr(m.group(1)) not in (65496, 65497, None)]
+    body = [l for l in lines if T.line_label(l)[0] is not None or l.startswith(" ")] or lines
+    n_assign = sum(len(re.findall(r"play\.octo := [01]\b", l)) for l in lines) - (1 if flag(case, 0) else 0)
+    n_speed = len(re.findall(r"POKE *(65496|65497|&H *FFD8|&H *FFD9|65496\.0*|65497\.0*) *,", src))
+    if others and n_assign > n_speed:
+        return (f"a POKE to address {others[0]} (not one of the two speed-poke addresses) is translated into a play.octo "
+                f"assignment: its operands do not reach the runtime")
     return None
+
+
+def _poke_addr(t):
+    t = t.replace(" ", "")
+    try:
+        return int(t[2:], 16) if t.upper().startswith("&H") else (int(float(t)) if float(t) == int(float(t)) else None)
+    except ValueError:
+        return None
